@@ -108,7 +108,16 @@ class Helper:
         self.static = decos == ["staticmethod"]
         self.plain = decos in ([], ["staticmethod"])
         a = node.args  # type: ignore[attr-defined]
-        self.simple_sig = not (a.vararg or a.kwarg or a.posonlyargs)
+        # `*args` that the body only ever spreads into calls (`f(*args)`) is bound to the tuple of the extra arguments
+        self.vararg: Optional[str] = None
+        if a.vararg is not None and not a.kwarg and not a.posonlyargs and not a.kwonlyargs:
+            va = a.vararg.arg
+            uses = [n for n in ast.walk(node) if isinstance(n, ast.Name) and n.id == va]
+            spread = [n for n in ast.walk(node) if isinstance(n, ast.Starred) and isinstance(n.value, ast.Name) and n.value.id == va
+                      and isinstance(n.ctx, ast.Load)]
+            if uses and len(uses) == len(spread) and all(isinstance(n.ctx, ast.Load) for n in uses):
+                self.vararg = va
+        self.simple_sig = not (a.kwarg or a.posonlyargs) and (a.vararg is None or self.vararg is not None)
         self.params = [x.arg for x in a.args + a.kwonlyargs]
         n_pos_defaults = len(a.defaults)
         self.defaults: Dict[str, ast.expr] = {}
@@ -179,7 +188,12 @@ def _bind(h: Helper, call: ast.Call) -> Optional[Dict[str, ast.expr]]:
     else:
         pos_params = params[:npos]
     if len(call.args) > len(pos_params):
-        return None
+        extras = call.args[len(pos_params):]
+        if h.vararg is None or not all(_simple(x) for x in extras):
+            return None
+        binding[h.vararg] = ast.Tuple(elts=list(extras), ctx=ast.Load())
+    elif h.vararg is not None:
+        binding[h.vararg] = ast.Tuple(elts=[], ctx=ast.Load())
     for p, a in zip(pos_params, call.args):
         binding[p] = a
     for k in call.keywords:
@@ -613,6 +627,13 @@ class Inliner:
             a, b = there.get(name), here.get(name)
             if a is None and b is None:
                 continue  # a builtin in both
+            if a is not None and a[0] == "def" and b == ("from", home_name, name):  # type: ignore[index]
+                # defined once in the helper's module and imported from there, under the same name, by the caller's
+                stores = sum(1 for n in ast.walk(home) if isinstance(n, ast.Name) and n.id == name and isinstance(n.ctx, (ast.Store, ast.Del)))
+                defs = sum(1 for n in ast.walk(home) if isinstance(n, (ast.FunctionDef, ast.AsyncFunctionDef, ast.ClassDef)) and n.name == name)
+                globals_ = any(isinstance(n, ast.Global) and name in n.names for n in ast.walk(home))
+                if stores + defs == 1 and not globals_:
+                    continue
             if a is None or b is None or a != b or a[0] == "def":  # type: ignore[index]
                 return False
         return True
@@ -636,7 +657,7 @@ class Inliner:
         for p, arg in binding.items():
             stored = hfacts.stores.get(p, 0) > 0
             uses = sum(_count_loads(s, p) for s in h.body)
-            if not stored and (_simple(arg) or uses == 0 or _accessor(arg)):
+            if not stored and (_simple(arg) or uses == 0 or _accessor(arg) or p == h.vararg):
                 # a complex argument is bound to a local first: substituting it at its use could move its
                 # evaluation into a `try`, a branch or a loop of the helper (S9 inlines it again where that is safe)
                 subst[p] = arg
